@@ -132,7 +132,7 @@ k("c19_equal_ops", ["C19", "C08"], "complete", "`!=` is the negation of `==` (in
   functions=["equal::exec", "not_equal::exec"])
 k("c19_array_eq_ignores_element_type", ["C19"], "bounded",
   "arrays with equal content but different stored element types are equal",
-  bound="lengths 0 and 1; stored types drawn from {!, int, any}; symbolic int elements", inputs=("i64", "i64"),
+  bound="lengths 0 and 1; stored types drawn from {!, int, any, float, string} (related and unrelated by the subtype relation); symbolic int elements", inputs=("i64", "i64"),
   probe="eq_array", functions=["<Array as PartialEq>::eq", "<Variable as PartialEq>::eq"])
 k("c19_array_eq_elementwise_len2", ["C19"], "bounded", "array equality is length + element-wise equality",
   bound="lengths 1 and 2, symbolic int elements", inputs=("i64", "i64", "i64", "i64"), probe="eq_array",
